@@ -10,6 +10,18 @@ import sys
 pid = sys.argv[1]
 wt = sys.argv[2]
 n = sys.argv[3] if len(sys.argv) > 3 else "4"
+EMPHASIS = {
+    "": "",
+    "w3": ("For this round prefer edit kinds that change the SHAPE of the code more deeply than renaming or naming a temporary: reorder the arms of an if/elif chain "
+           "(with the tests adjusted so the same arm runs), merge two nested ifs into one `and` test or split an `and` test into nested ifs, replace an if/elif chain over a "
+           "string option by a dict lookup or vice versa (only where exactly equivalent, including the error for an unknown value), turn `for ... : if c: continue` into "
+           "`for ...: if not c: ...`, replace a while loop by a for loop over a range (or back) where the trip count is evident, hoist a loop-invariant computation out of a loop, "
+           "fuse two consecutive loops over the same range or split one loop into two, replace `a if c else b` by an if/else statement, compute a value earlier or later "
+           "(still before its first use and after the definitions it reads), swap the operands of a commutative tensor op, rewrite `x - y > 0` style tests only when exactly "
+           "equivalent for the dtype, replace an in-place tensor update by the out-of-place one assigned to the same name (only when no alias of the tensor is live), "
+           "pass an argument by keyword instead of position or back, split a function's long body with a nested closure or a private helper that returns a tuple. "),
+}
+emph = EMPHASIS.get(sys.argv[4] if len(sys.argv) > 4 else "", "")
 out = os.path.dirname(wt.rstrip("/"))
 for l in open('/verif/properties.jsonl'):
     p = json.loads(l)
@@ -31,7 +43,7 @@ TASK: produce {n} DIFFERENT, independent patches (each against the clean worktre
   - split a long chained expression into two statements, or join two statements into one expression;
   - move an argument check a few lines (still before first use), or merge two consecutive checks;
   - extract a few lines into a small private helper function in the same module and call it (keep TorchScript-compatibility where the function is decorated with @script: type-annotate the helper and decorate it with @script too), or inline a tiny private helper.
-Spread the edits: at least one patch should concentrate on secondary code paths (argument validation, the Module wrapper, the command-line driver, option handling, error branches) rather than the main computation, and at least one should restructure control flow (guard clauses <-> if/else, loop <-> comprehension, merging or splitting branches, hoisting a common statement out of two branches or duplicating it into them).
+{emph}Spread the edits: at least one patch should concentrate on secondary code paths (argument validation, the Module wrapper, the command-line driver, option handling, error branches) rather than the main computation, and at least one should restructure control flow (guard clauses <-> if/else, loop <-> comprehension, merging or splitting branches, hoisting a common statement out of two branches or duplicating it into them).
 Every patch MUST keep the observable behaviour exactly the same for ALL inputs (same values, same dtypes, same exceptions for invalid input, same files written in the same order). Do not fix bugs, do not change defaults, messages may keep their text. If you are not sure an edit is exactly equivalent, do not make it. Keep each patch moderate (5-40 changed lines). Do not only rename: at most one patch may be rename-only.
 
 For each patch i (1..{n}):
